@@ -737,7 +737,11 @@ class Interp:
         partial = set()
         for _, s in ins:
             for k in s.mem:
-                if k not in mk and root_of(k)[0] == 'local':
+                lf = last_field(k) or ''
+                if lf.startswith('ChunkFooter.') or lf.startswith('Bump.'):
+                    continue    # arena state is re-read under the chunk invariant J (assume/guarantee), not tracked across merges
+                if k not in mk and (root_of(k)[0] == 'local' or not (isinstance(s.mem[k], tuple) and s.mem[k][0] == 'load' and s.mem[k][1] == k)):
+                    # (pointer-rooted locations that only hold their own cached load are simply re-read later)
                     partial.add(k)
         for k in partial:
             for _, s in ins:
